@@ -120,8 +120,12 @@ def seq_guard(lib, p11drv, seed, idx):
         # keys: usage flag value and allowed-mechanism list vary per key
         keys = []
 
-        def flags(on):
-            return ' '.join('0x%x=b:%d' % (a, 1 if on else 0) for a in sorted(set(USAGE.values())))
+        def flagset(on, attrs):
+            """usage attribute -> bool: all on, all off, or (on == 'mixed') each flag on its own"""
+            return {a: (bool(on) if on != 'mixed' else rng.random() < 0.5) for a in attrs}
+
+        def flags(fs):
+            return ' '.join('0x%x=b:%d' % (a, 1 if v else 0) for a, v in sorted(fs.items()))
 
         def allowed(kind, pool):
             if kind == 'none':
@@ -131,24 +135,27 @@ def seq_guard(lib, p11drv, seed, idx):
 
         for (cls, kt, val, pool) in ((4, 0x1f, '11' * 16, AES_M + ['CKM_AES_CMAC', 'CKM_AES_KEY_WRAP', 'CKM_AES_KEY_WRAP_PAD']),
                                      (4, 0x10, '22' * 32, HMAC_M + ['CKM_CONCATENATE_BASE_AND_DATA']), (4, 0x15, '0123456789abcdef' * 3, DES3_M)):
-            for on in (True, False):
+            for on in (True, False, 'mixed', 'mixed'):
                 al, aset = allowed(rng.choice(['none', 'some', 'some']), pool)
-                r = p.op('create %s 0=u:%d 0x100=u:0x%x 0x11=x:%s 1=b:0 2=b:0 0x162=b:1 0x103=b:0 %s%s' % (s, cls, kt, val, flags(on), al))
+                fs = flagset(on, sorted(set(USAGE.values())))
+                r = p.op('create %s 0=u:%d 0x100=u:0x%x 0x11=x:%s 1=b:0 2=b:0 0x162=b:1 0x103=b:0 %s%s' % (s, cls, kt, val, flags(fs), al))
                 if r.get('rv') == '0x0':
-                    keys.append({'h': r['h'], 'cls': cls, 'kt': kt, 'on': on, 'allowed': aset, 'val': bytes.fromhex(val)})
+                    keys.append({'h': r['h'], 'cls': cls, 'kt': kt, 'on': on is True, 'flags': fs, 'allowed': aset, 'val': bytes.fromhex(val)})
         k = RSAKEYS[0]
         n_, e_, d_ = int(k['n'], 16), int(k['e'], 16), int(k['d'], 16)
-        for on in (True, False):
+        for on in (True, False, 'mixed'):
             al, aset = allowed(rng.choice(['none', 'some']), RSA_ENC + RSA_SIG)
-            r = p.op('create %s 0=u:2 0x100=u:0 0x120=x:%s 0x122=x:%s 1=b:0 2=b:0 %s%s' % (s, be(n_), be(e_), ' '.join('0x%x=b:%d' % (a, on) for a in (0x104, 0x10a, 0x106)), al))
+            fs = flagset(on, (0x104, 0x10a, 0x106))
+            r = p.op('create %s 0=u:2 0x100=u:0 0x120=x:%s 0x122=x:%s 1=b:0 2=b:0 %s%s' % (s, be(n_), be(e_), flags(fs), al))
             if r.get('rv') == '0x0':
-                keys.append({'h': r['h'], 'cls': 2, 'kt': 0, 'on': on, 'allowed': aset})
+                keys.append({'h': r['h'], 'cls': 2, 'kt': 0, 'on': on is True, 'flags': fs, 'allowed': aset})
             al, aset = allowed(rng.choice(['none', 'some']), RSA_ENC + RSA_SIG)
+            fs3 = flagset(on, (0x105, 0x108, 0x107))
             r = p.op('create %s 0=u:3 0x100=u:0 0x120=x:%s 0x122=x:%s 0x123=x:%s 0x124=x:%s 0x125=x:%s 0x126=x:%s 0x127=x:%s 0x128=x:%s 1=b:0 2=b:0 0x103=b:0 0x162=b:1 %s%s'
                      % (s, be(n_), be(e_), be(d_), be(int(k['p'], 16)), be(int(k['q'], 16)), be(int(k['dp'], 16)), be(int(k['dq'], 16)), be(int(k['qinv'], 16)),
-                        ' '.join('0x%x=b:%d' % (a, on) for a in (0x105, 0x108, 0x107)), al))
+                        flags(fs3), al))
             if r.get('rv') == '0x0':
-                keys.append({'h': r['h'], 'cls': 3, 'kt': 0, 'on': on, 'allowed': aset})
+                keys.append({'h': r['h'], 'cls': 3, 'kt': 0, 'on': on is True, 'flags': fs3, 'allowed': aset})
         target = next((x['h'] for x in keys if x['cls'] == 4 and x['kt'] == 0x10), None)
         # cells
         for _ in range(70):
@@ -186,7 +193,7 @@ def seq_guard(lib, p11drv, seed, idx):
                 continue
             cand = [x for x in keys if x['cls'] == 4 or (x['cls'] == 2 and op in ('encinit', 'verifyinit', 'wrap')) or (x['cls'] == 3 and op in ('decinit', 'signinit', 'unwrap'))]
             if rng.random() < 0.7:
-                cand = [x for x in cand if x['on']] or cand
+                cand = [x for x in cand if x['flags'].get(USAGE[op], x['on'])] or cand
             key = rng.choice(cand) if cand and rng.random() < 0.85 else rng.choice(keys)
             pool = {'encinit': AES_M + DES3_M + RSA_ENC, 'decinit': AES_M + DES3_M + RSA_ENC, 'signinit': HMAC_M + RSA_SIG + ['CKM_AES_CMAC', 'CKM_DES3_CMAC'],
                     'verifyinit': HMAC_M + RSA_SIG + ['CKM_AES_CMAC'], 'wrap': WRAP_M, 'unwrap': WRAP_M, 'derive': DERIVE_M}[op]
@@ -223,8 +230,8 @@ def seq_guard(lib, p11drv, seed, idx):
                     p.op({'encinit': 'encfin %s 600', 'decinit': 'decfin %s 600', 'signinit': 'signfin %s 600', 'verifyinit': 'verifyfin %s 00'}[op] % s)
                     p.op({'encinit': 'enc %s 00 600', 'decinit': 'dec %s 00 600', 'signinit': 'sign %s 00 600', 'verifyinit': 'verify %s 00 00'}[op] % s)
                 what = '%s with %s on a %s key' % (op, nm, {(4, 0x1f): 'AES', (4, 0x10): 'generic secret', (4, 0x15): 'DES3', (2, 0): 'RSA public', (3, 0): 'RSA private'}[(key['cls'], key['kt'])])
-                if not key['on']:
-                    c.bad('%s started although the usage attribute 0x%x is false' % (what, USAGE[op]))
+                if not key['flags'].get(USAGE[op], True):
+                    c.bad('%s started although the usage attribute 0x%x is false (the key\'s usage flags: %s)' % (what, USAGE[op], ' '.join('0x%x=%d' % (a, v) for a, v in sorted(key['flags'].items()))))
                 if CKM[nm] not in adv:
                     c.bad('%s started although the configuration removed the mechanism from the advertised list' % what)
                 if key['allowed'] is not None and CKM[nm] not in key['allowed']:
